@@ -47,6 +47,8 @@ class Order(AbsInt):
                     outs.append(("spec", ASC_ALG))
                 elif a[1] == "mag":
                     outs.append(("spec", ASC_MAG))
+                elif a[1] == "desc":
+                    outs.append(("spec", "descending"))
                 elif a[1] == "slice":
                     outs += specs
                 else:
@@ -68,12 +70,21 @@ class Order(AbsInt):
             a = args[0] if args else None
             if a is not None and all(isinstance(x, tuple) and x[0] == "absof" for x in self.alternatives(a)):
                 return ("idx", "mag")
+            if a is not None and any(isinstance(x, tuple) and x[0] == "negof" for x in self.alternatives(a)):
+                return ("idx", "desc")
+            if kwargs.get("descending") is not None and kwargs["descending"] != ("const", "False"):
+                return ("idx", "desc")
             return ("idx", "alg")
         if name == "sort":
             return ("spec", ASC_ALG)
         if name in ("array", "cast", "copy", "conj", "sqrt"):
             return args[0] if args else self.unknown(name)
         return self.unknown(f"xnp.{name}")
+
+    def unaryop(self, node, v, ctx):
+        if isinstance(node.op, ast.USub):
+            return ("negof", v)
+        return self.unknown("unary")
 
     def call_external(self, dotted, node, args, kwargs, ctx):
         tail = dotted.rsplit(".", 1)[-1]
@@ -264,7 +275,10 @@ def run(idx, rep, tier):
             rr = idx.resolve_expr(fi.module, c.func, fi)
             if rr is not None and rr.kind == "funcs" and rr.val[-1].name in ("lanczos_eigs", "arnoldi_eigs", "lobpcg"):
                 helper_fns.add(rr.val[-1])
-    # ---- paired permutation in rules and helpers
+    # ---- paired permutation in rules and helpers (and the plain functions of the same module the helpers delegate to)
+    from sa.krylov import closure as _closure
+    for h_ in list(helper_fns):
+        helper_fns |= {g for g in _closure(idx, h_, same_module=True) if getattr(g, "rule", None) is None}
     for fi in [r.func for r in rules] + sorted(helper_fns, key=lambda f: f.qual):
         sel = index_names(fi)
         for name, kind in sorted(sel.items()):
